@@ -118,6 +118,8 @@ def gen_layout(rng, rich=False, simple=False, delimiter=Ellipsis):
         'date_format': rng.choice(DATE_FORMATS[:3] if simple else DATE_FORMATS),
         'delimiter': None if simple else rng.choice(CSV_DELIMS + ([None] if not rich else ['regex'])),
         'has_header': rng.random() < 0.7,
+        # with has_header the first line is skipped, whatever it looks like
+        'header_style': rng.choice([None, None, None, None, 'short', 'title', 'long']),
         'decimal': rng.choice(['.', '.', ',']),
         'sign': rng.choice(['', '', '-', '+']),
         'negate_setting': False,
@@ -277,6 +279,13 @@ def header_line(lay):
     for c in lay['cols']:
         names.append({'date': 'Date', 'amount': 'Amount', 'description': 'Description',
                       'location': 'Location', 'skip': 'Other'}.get(c, c[4:].title() if c.startswith('cap:') else c))
+    style = lay.get('header_style')
+    if style == 'short' and len(names) > 2:
+        names = names[:max(2, len(names) - 2)]        # the bank names fewer columns than its rows have (trailing columns unnamed)
+    elif style == 'title':
+        return 'Account statement 2025'                # a title line where the column names would be: one line, skipped like any header
+    elif style == 'long':
+        names = names + ['Balance', 'Notes']           # ... or more columns than the rows have
     return join_cells(lay, names)
 
 
